@@ -1,0 +1,15 @@
+// Copyright (c) 2026, Daniel Martí <mvdan@mvdan.cc>
+// See LICENSE for licensing information
+
+//go:build verif
+
+package main
+
+import "runtime"
+
+// With the "verif" build tag, keep the main goroutine on the main OS thread,
+// so that a tracer which counts system calls per thread, such as strace's
+// fault injection, sees all of shfmt's file operations as one sequence.
+func init() {
+	runtime.LockOSThread()
+}
